@@ -28,6 +28,7 @@ def declare(rep):
     rep.rule("C15.shared-mutation", "every mutation of shared state in a parallel region (incl. callee closure) is atomic, critical, locked, or confined to the loop's own element", floor=9)
     rep.rule("C15.population-renumbering", "after the parallel division loop every change of the population is followed by a renumbering of the whole list from position 0 (several divisions in one pass must leave place == local id for every cell)", floor=2)
     rep.rule("C15.remove-index-sorted", "indices collected by the threads of a parallel loop are sorted before remove_index compacts the shared list (thread-completion order must not matter)", floor=1)
+    rep.rule("C15.static-local", "no function executed inside a parallel region (region body and callee closure) declares a mutable function-local static: such an object is one buffer shared by all threads", floor=8)
     rep.rule("C15.atomic-accumulator", "each component update of vec3::translate is an OpenMP atomic update in the program as built", floor=6)
 
 
@@ -43,6 +44,31 @@ def run(rep, prog, tier):
         # units built without -fopenmp whose own '#pragma omp' lines are ignored by the product build: the region rules are also
         # decided on what those pragmas state (the same source parsed with -fopenmp), for the functions of those units only
         _run(rep, lat, tier, set(prog.latent_units))
+
+
+def static_locals_on_cone(prog, reg, fn=None):
+    """(function, Var) for every non-const function-local static declared in the region body or in a repository function of its
+    callee closure"""
+    from ..model import is_call
+    out = []
+    body = reg.get("body") if isinstance(reg.get("body"), dict) else (reg["node"].get("body") if isinstance(reg["node"].get("body"), dict) else None)
+    if body is None:
+        return out
+    rfn = reg.get("fn") or fn
+    keys = set()
+    for n in walk(body):
+        if n.get("k") == "Var" and n.get("static_local") and not (n.get("t") or "").startswith("const ") and rfn is not None:
+            out.append((rfn, n))
+        if is_call(n):
+            keys |= prog.call_targets(n)
+    for k in sorted(prog.closure(keys), key=str):
+        g = prog.functions.get(k)
+        if g is None or not isinstance(g.get("body"), dict) or g.get("pseudo"):
+            continue
+        for n in walk(g["body"]):
+            if n.get("k") == "Var" and n.get("static_local") and not (n.get("t") or "").startswith("const "):
+                out.append((g, n))
+    return out
 
 
 def _run(rep, prog, tier, only_units):
@@ -76,6 +102,14 @@ def _run(rep, prog, tier, only_units):
                 else:
                     rep.ok("C15.omp-containment", prog, fn, node, "omp %s: no exception can leave the region (callees noexcept, or try/catch(...) inside the region)" % node["omp"])
                 eptr(rep, prog, fn, node)
+            # (1b) function-local statics on the region's cone
+            st = static_locals_on_cone(prog, reg, fn)
+            for g_, v_ in st:
+                rep.violation("C15.static-local", prog, g_, v_, "mutable static local '%s' reachable from a parallel region" % v_.get("name"),
+                              "%s declares the function-local static '%s' (%s) and is executed by the threads of the %s region at %s: all threads share that one object, so concurrent calls overwrite each other's data (results depend on the schedule)"
+                              % (g_["qn"], v_.get("name"), v_.get("t"), reg["kind"], prog.loc(fn, node)))
+            if not st:
+                rep.ok("C15.static-local", prog, fn, node, "%s region: no mutable function-local static in the region body or its callee closure" % reg["kind"])
             # (4) shared mutation
             recs = RA.analyse(fn, reg)
             rfn = reg.get("fn", fn)
